@@ -230,6 +230,11 @@ def run(ck):
     probe_f_c20_2(ck)
     ck.hist("F-C20-2_occurrences_in_generated_cases", len(findings))
 
+    # --- the REAL public entry points (produce/fetch/offset*, the group code's JoinGroup with its 35 s minimum, heartbeats,
+    #     metadata / coordinator lookups, _load_topic_partitions) against a scripted honest broker: monitors only
+    from props import clientreq_public as PUB
+    PUB.run_public(ck, WHICH, 60 if not thorough else 1500)
+
     if thorough:
         ck.coqchk(["AV.Props.C20"])
     ck.cov["rule"] = ("corpus (every client state the property names at close(): idle, bootstrapping (connecting / request written), "
@@ -253,6 +258,9 @@ def run(ck):
 
 
 def replay(rp):
+    if rp.get("public"):
+        from props import clientreq_public as PUB
+        return PUB.replay_public(rp, WHICH)
     cfg = rp["cfg"]
     evs = L.unjson(rp["events"])
     done, recs = L.run_impl(cfg, evs)
